@@ -174,6 +174,62 @@ Proof.
   - right. rewrite D in *. f_equal; lra.
 Qed.
 
+Lemma qnormalize_unit q : qnorm2 q = 1 -> qnormalize q = q.
+Proof.
+  intros H. unfold qnormalize. rewrite H, sqrt_1. destruct q; cbn. f_equal; field.
+Qed.
+
+(* STANDARD ROUNDING MODEL for the stored quaternion: each stored component is the exact
+   normalised component times (1 + delta_i), |delta_i| <= u (u covers the float64 cast and the
+   MAX_FLOAT evaluation of q / sqrt(q @ q)).  Then fillpositive's w2 = 1 - (b^2 + c^2 + d^2) is
+   within (2u + u^2)(1 - w^2) of the true w^2, so for an exact 180 degree rotation (w = 0) it is
+   below the threshold as soon as 2u + u^2 < |thr| and w is snapped to 0. *)
+Lemma stored_quat_w2 q u d1 d2 d3 :
+  qnorm2 q = 1 -> 0 <= u -> Rabs d1 <= u -> Rabs d2 <= u -> Rabs d3 <= u ->
+  let b := qx q * (1 + d1) in let c := qy q * (1 + d2) in let d := qz q * (1 + d3) in
+  Rabs (1 - (b * b + c * c + d * d) - qw q * qw q) <= (2 * u + u * u) * (1 - qw q * qw q).
+Proof.
+  destruct q as [w x y z]; unfold qnorm2; cbn. intros Hn Hu H1 H2 H3.
+  assert (B : forall p dl, Rabs dl <= u -> Rabs (p * p - (p * (1 + dl)) * (p * (1 + dl))) <= (2 * u + u * u) * (p * p)).
+  { intros p dl Hd. replace (p * p - p * (1 + dl) * (p * (1 + dl))) with (- (2 * dl + dl * dl) * (p * p)) by ring.
+    rewrite Rabs_mult, (Rabs_pos_eq (p * p)) by apply Rle_0_sqr.
+    apply Rmult_le_compat_r; [apply Rle_0_sqr|].
+    rewrite Rabs_Ropp. eapply Rle_trans; [apply Rabs_triang|].
+    rewrite Rabs_mult, Rabs_mult, Rabs_R2 || (rewrite Rabs_mult, Rabs_mult; rewrite (Rabs_pos_eq 2) by lra).
+    assert (0 <= Rabs dl) by apply Rabs_pos.
+    assert (Rabs dl * Rabs dl <= u * u) by (apply Rmult_le_compat; assumption).
+    lra. }
+  pose proof (B x d1 H1) as Bx. pose proof (B y d2 H2) as By. pose proof (B z d3 H3) as Bz.
+  replace (1 - (x * (1 + d1) * (x * (1 + d1)) + y * (1 + d2) * (y * (1 + d2)) + z * (1 + d3) * (z * (1 + d3))) - w * w)
+    with ((x * x - x * (1 + d1) * (x * (1 + d1))) + (y * y - y * (1 + d2) * (y * (1 + d2)))
+          + (z * z - z * (1 + d3) * (z * (1 + d3)))) by lra.
+  replace (1 - w * w) with (x * x + y * y + z * z) by lra.
+  eapply Rle_trans; [apply Rabs_triang|]. eapply Rle_trans; [apply Rplus_le_compat_r; apply Rabs_triang|]. lra.
+Qed.
+
+Lemma stored_quat_snaps thr q u d1 d2 d3 :
+  qnorm2 q = 1 -> qw q = 0 -> 0 <= u -> 2 * u + u * u < Rabs thr ->
+  Rabs d1 <= u -> Rabs d2 <= u -> Rabs d3 <= u ->
+  let b := qx q * (1 + d1) in let c := qy q * (1 + d2) in let d := qz q * (1 + d3) in
+  fillpositive thr b c d = Some (mkQt 0 b c d).
+Proof.
+  intros Hn Hw Hu Ht H1 H2 H3. cbv zeta.
+  pose proof (stored_quat_w2 q u d1 d2 d3 Hn Hu H1 H2 H3) as W. cbv zeta in W.
+  rewrite Hw in W. rewrite Rmult_0_l, Rminus_0_r, Rminus_0_r, Rmult_1_r in W.
+  unfold fillpositive.
+  destruct (Rlt_dec _ (Rabs thr)) as [_|N]; [reflexivity|]. exfalso. apply N. lra.
+Qed.
+
+(* instance: u = eps64 = 2^-52 (twice the unit roundoff), thr = -3 eps64 (NIfTI-2) *)
+Lemma stored_quat_snaps_nifti2 : 2 * (/ 4503599627370496) + (/ 4503599627370496) * (/ 4503599627370496)
+                                 < Rabs (- 3 * / 4503599627370496).
+Proof.
+  rewrite Rabs_left by lra. set (e := / 4503599627370496).
+  assert (0 < e) by (unfold e; apply Rinv_0_lt_compat; lra).
+  assert (e < 1) by (unfold e; rewrite <- Rinv_1; apply Rinv_lt_contravar; lra).
+  nra.
+Qed.
+
 (* ------------------------------------------------------------- qform, ideal arithmetic *)
 Section QformIdeal.
   Variable polar : M3 -> M3.
@@ -205,7 +261,7 @@ Section QformIdeal.
   Lemma set_qform_rotation R0 z1 z2 z3 s t :
     orthogonal R0 -> det R0 = 1 -> 0 < z1 -> 0 < z2 -> 0 < z3 -> (s = 1 \/ s = -1) ->
     set_qform_R polar eigmax (mkAff (scale_cols R0 (mk3 z1 z2 (z3 * s))) t)
-    = let q := mat2quat eigmax R0 in mkQH s (mk3 z1 z2 z3) (qx q) (qy q) (qz q) t.
+    = let q := qnormalize (mat2quat eigmax R0) in mkQH s (mk3 z1 z2 z3) (qx q) (qy q) (qz q) t.
   Proof.
     intros Ho Hd H1 H2 H3 Hs. cbv zeta.
     assert (Ho' := Ho). unfold orthogonal, mmul, transpose, I3 in Ho'.
@@ -251,6 +307,7 @@ Section QformIdeal.
     rewrite (set_qform_rotation (rotq q0) z1 z2 z3 s t (rotq_orthogonal q0 H0) (rotq_det q0 H0) H1 H2 H3 Hs).
     cbv zeta.
     destruct (mat2quat_rotq q0 H0) as (Hq & Hpos & Hun). cbv zeta in *.
+    rewrite (qnormalize_unit _ Hun).
     set (q := mat2quat eigmax (rotq q0)) in *.
     unfold get_qform_R. cbn [h_b h_c h_d h_zooms h_qfac h_off v1 v2 v3].
     assert (Hwq : qw q = 0 \/ Rabs thr <= qw q * qw q).
